@@ -436,8 +436,14 @@ impl Message {
 //@ contract
     // ASSUMED (body not verified: VecDeque::iter().flat_map(closure) adapter chain):
     // the iterator yields exactly the bytes the message denotes, front to back
+    ensures self.wf() ==> (r.obeys_prophetic_iter_laws() && r.remaining() == self@),
+//@ end
+
+//@ item sim/elvis-core/src/message.rs :: impl Message / fn to_vec id=Message.to_vec mode=sig
+//@ contract
+    // ASSUMED (body `self.iter().collect()` not verified: Iterator::collect is outside Verus)
     requires self.wf(),
-    ensures r.obeys_prophetic_iter_laws(), r.remaining() == self@,
+    ensures r@ == self@,
 //@ end
 
 //@ item sim/elvis-core/src/message.rs :: impl Message / fn len id=Message.len
@@ -449,6 +455,27 @@ impl Message {
 //@ contract
     requires self.wf(),
     ensures r == (self@.len() == 0),   //# empty_iff_no_bytes [C07]
+//@ end
+}
+
+
+/// Iterator::eq on two byte iterators: element-wise comparison of what they yield.  ASSUMED (Iterator::eq is a
+/// generic trait method that cannot be given an assume_specification); reached through a declared rewrite.
+#[verifier::external_body]
+pub fn vx_bytes_eq<I: Iterator<Item = u8>, J: Iterator<Item = u8>>(a: I, b: J) -> (r: bool)
+    ensures (a.obeys_prophetic_iter_laws() && b.obeys_prophetic_iter_laws()) ==> r == (a.remaining() == b.remaining()),
+{ a.eq(b) }
+
+impl vstd::std_specs::cmp::PartialEqSpecImpl for Message {
+    open spec fn obeys_eq_spec() -> bool { false }   // `eq` needs both messages well-formed: contract is the `ensures` below
+    open spec fn eq_spec(&self, other: &Self) -> bool { self@ == other@ }
+}
+impl PartialEq for Message {
+//@ item sim/elvis-core/src/message.rs :: impl PartialEq for Message / fn eq id=Message.eq
+//@ rewrite `self\.iter\(\)\.eq\(other\.iter\(\)\)` => `vx_bytes_eq(self.iter(), other.iter())` ## Iterator::eq routed through the assumed-contract wrapper
+//@ contract
+    // two well-formed messages are equal exactly when they denote the same bytes (whatever their chunk layouts)
+    ensures (self.wf() && other.wf()) ==> r == (self@ == other@),   //# equal_iff_same_bytes [C07]
 //@ end
 }
 
